@@ -247,6 +247,18 @@ def r5(ctx):
                 why = "drain range is %s" % term_str(rng)
         ctx.check(P, rule, "Oplog::flush: keeps only the content write of the first result", good,
                   "first result contributes exactly element 0..1 (its content write)", "first header result not reduced to its first element (%s)" % why)
+        # the header bits remembered afterwards are those returned by the LAST header write of each branch
+        ws = assign_sites(ff, "self.header_bits")
+        okbits = False
+        if ws:
+            v = ff.origin_rvalue(ff.blocks[ws[0][0]].stmts[ws[0][1]]["rv"], ws[0][0], ws[0][1])
+            srcs = sorted(call_root_bb(r[1]) == [b] or (in_false and call_root_bb(r[1]) == [in_false[0]]) for r in roots(v) if r[0] == "field" and r[2] == "0")
+            prod = sorted(x for r in roots(v) for x in call_root_bb(r[1]) if r[0] == "field" and r[2] == "0")
+            okbits = prod == sorted([b] + in_false[:1]) and len(roots(v)) == 2
+        ctx.check(P, rule, "Oplog::flush: remembered header bits are those of the last header written", okbits,
+                  "self.header_bits = bits returned by the second insert_header (clearing traces) / by the only one (normal flush)",
+                  "after a trace-clearing flush self.header_bits does not come from the second insert_header call: memory and disk disagree on the current header bit, so entries written next carry a stale bit and are discarded on reopen",
+                  [loc(ff, ws[0][0], ws[0][1])] if ws else [], key="C02|C02.R5|Oplog::flush|header bits after clearing traces")
         ex = [s for s in sites(ff, "std::iter::Extend::extend") if term_has_call(ff.arg_origin(s, 1), INSERT_HEADER) == b]
         ctx.check(P, rule, "Oplog::flush: second result appended whole", bool(ex), "second result (content, truncate) appended after the first content",
                   "second insert_header result is not appended whole after the first")
@@ -475,7 +487,35 @@ def r9(ctx, prop=P, rule="C02.R9"):
     ctx.check(prop, rule, "read-result infos (miss / size) are built only by the read path", not bad, "new_content_miss / new_size only in read_infos_to_vec", "read-result infos built elsewhere: %s" % bad, bad)
 
 
-RULES = [r1, r2, r3, r4, r5, r6, r7, r8, r8b, r9]
+def r8c(ctx, prop=P, rule="C02.R8"):
+    """the log length restored by Oplog::open is taken from the list of accepted entries after that
+    list is final: no element is removed from the collection it is read from after the read"""
+    fo = ctx.fn(OPLOG_OPEN)
+    if not need(ctx, prop, rule, OPLOG_OPEN, fo):
+        return
+    for fld in ("entries_byte_length", "entries_length"):
+        for b in fo.live():
+            for si, st in enumerate(b.stmts):
+                if st["k"] == "assign" and st["place"]["p"] and isinstance(st["place"]["p"][-1], dict) and st["place"]["p"][-1].get("n") == fld:
+                    v = fo.origin_rvalue(st["rv"], b.i, si)
+                    if term_is_lit(v):
+                        continue
+                    objs = [x for x in subterms(v) if isinstance(x, tuple) and len(x) == 4 and x[0] == "call" and x[2].endswith("::new") and not x[3]]
+                    reads = [x[1] for x in subterms(v) if isinstance(x, tuple) and len(x) == 4 and x[0] == "call" and x[3] and strip(x[3][0]) in objs]
+                    if objs and not reads:
+                        reads = [b.i]  # e.g. `entries.len()`: read where the value is assigned
+                    late = []
+                    for s, t_ in fo.calls():
+                        if (t_.get("callee") or "").split("::")[-1] in ("pop", "truncate", "remove", "clear", "drain", "push") and t_["args"] and strip(fo.arg_origin(s, 0)) in objs:
+                            if any(fo.can_reach(r, s) for r in reads):
+                                late.append(s)
+                    ctx.check(prop, rule, "Oplog::open: %s is read after the accepted entries are final" % fld, bool(reads) and not late,
+                              "no push/pop on the source collection is reachable after it is read",
+                              "%s is computed at %s from a collection that is still modified afterwards (%s): entries discarded after the read (trailing partial entries) are still counted, so the next entry is written behind them and completes the unfinished batch" % (
+                                  fld, loc(fo, b.i, si), [site_desc(fo, s) for s in late]), [loc(fo, b.i, si)], key="%s|%s|Oplog::open|%s read before trimming" % (prop, rule, fld))
+
+
+RULES = [r1, r2, r3, r4, r5, r6, r7, r8, r8b, r8c, r9]
 
 EXPLANATION = ("C02 (crash recovers to before-or-after): decides the write-ahead ordering premises on the CFG of every mutating entry point — "
                "data write before oplog entry, entry write ?-checked before any in-memory commit, commits before the periodic flush (append R1, proof apply R2), "
